@@ -577,3 +577,121 @@ Proof.
     unfold srv_stat, spec_size.
     destruct (lfetch (s_tree s) (sf_key f)) as [[|i]|]; intros Hx; inversion Hx; reflexivity.
 Qed.
+
+(* ================================================================ F. the position of a handle is the sum of what was reported *)
+Definition next_off (o : op) (i : nat) (off : Z) (r : res) : Z :=
+  match o, r with
+  | HRead j _, RData b _ => if Nat.eqb i j then off + zlen b else off
+  | HWrite j _, RCount n _ | HWriteString j _, RCount n _ => if Nat.eqb i j then off + n else off
+  | HSeek j _ _, RPos p None => if Nat.eqb i j then p else off
+  | _, _ => off
+  end.
+
+Definition rebinds (slot : option nat) (o : op) (i : nat) : Prop :=
+  match o with
+  | Create _ | Open _ | OpenFile _ _ _ => slot = Some i
+  | _ => False
+  end.
+
+Lemma slot_get_list_set slots h i f g : sf_slot_get slots h = Some f ->
+  sf_slot_get (list_set h (Some g) slots) i = if Nat.eqb i h then Some g else sf_slot_get slots i.
+Proof.
+  unfold sf_slot_get. revert h i; induction slots as [|x slots IH]; intros [|h] [|i]; simpl; try discriminate; auto.
+Qed.
+
+Lemma slot_get_slot_set_other : forall j slots i g, i <> j ->
+  sf_slot_get (sf_slot_set j g slots) i = sf_slot_get slots i.
+Proof.
+  unfold sf_slot_get. induction j as [|j IH]; intros slots i g Hij.
+  - destruct i; [contradiction|]. destruct slots; simpl; [destruct i; reflexivity | reflexivity].
+  - destruct slots as [|x slots]; destruct i as [|i]; simpl; try reflexivity.
+    + rewrite IH by congruence. destruct i; reflexivity.
+    + apply IH; congruence.
+Qed.
+
+Lemma slot_get_bind s slots slot g i : slot <> Some i ->
+  sf_slot_get (st_slots (sf_bind s slots slot g)) i = sf_slot_get slots i.
+Proof.
+  unfold sf_bind. destruct slot as [j|]; cbn; [|reflexivity].
+  intros H. apply slot_get_slot_set_other. congruence.
+Qed.
+
+Definition same_handle (f f' : sfile) : Prop :=
+  sf_obj f' = sf_obj f /\ sf_key f' = sf_key f /\ sf_mode f' = sf_mode f /\ sf_name f' = sf_name f.
+
+Theorem offsets_track_reports st slot o i f :
+  sf_slot_get (st_slots st) i = Some f -> ~ rebinds slot o i ->
+  exists f', sf_slot_get (st_slots (fst (sftp_step st (slot, o)))) i = Some f' /\
+             same_handle f f' /\
+             sf_off f' = next_off o i (sf_off f) (snd (sftp_step st (slot, o))).
+Proof.
+  destruct st as [s slots]. cbn [st_slots]. intros Hi Hnr.
+  assert (Hsame : same_handle f f) by (repeat split).
+  assert (Hkeep : exists f', sf_slot_get slots i = Some f' /\ same_handle f f' /\ sf_off f' = sf_off f)
+    by (exists f; auto).
+  destruct o; unfold sftp_step, next_off, rebinds in *; cbn [fst snd st_srv st_slots].
+  - destruct (c_open s p create_flags true) as [[s' g]|e]; cbn [fst snd st_slots]; [|(cbn; apply Hkeep)].
+    exists f. rewrite slot_get_bind by exact Hnr. auto.
+  - destruct (fs_mkdir s p) as [s' r]; cbn. destruct r; (cbn; apply Hkeep).
+  - destruct (fs_mkdirall false (S (length p)) s p) as [s' r]; cbn. destruct r; (cbn; apply Hkeep).
+  - destruct (c_open s p o_rdonly true) as [[s' g]|e]; cbn [fst snd st_slots]; [|(cbn; apply Hkeep)].
+    exists f. rewrite slot_get_bind by exact Hnr. auto.
+  - destruct (c_open s p flag false) as [[s' g]|e]; cbn [fst snd st_slots]; [|(cbn; apply Hkeep)].
+    destruct (srv_setstat s' (sf_key g) None); cbn [fst snd st_slots]; [|(cbn; apply Hkeep)].
+    exists f. rewrite slot_get_bind by exact Hnr. auto.
+  - destruct (fs_remove s p) as [s' r]; cbn. destruct r; (cbn; apply Hkeep).
+  - (cbn; apply Hkeep).
+  - destruct (fs_rename s p q) as [s' r]; cbn. destruct r; (cbn; apply Hkeep).
+  - cbn. destruct (fs_stat s p); (cbn; apply Hkeep).
+  - cbn. destruct (fs_setattr s p); (cbn; apply Hkeep).
+  - cbn. destruct (fs_setattr s p); (cbn; apply Hkeep).
+  - cbn. destruct (fs_setattr s p); (cbn; apply Hkeep).
+  - (* HRead *)
+    destruct (sf_slot_get slots h) as [g|] eqn:Eh; cbn [fst snd st_slots]; [|rewrite Hi; eauto].
+    destruct (c_readat _ g n (sf_off g)) as [b e]. cbn [fst snd st_slots].
+    rewrite (slot_get_list_set _ _ _ _ _ Eh).
+    destruct (Nat.eqb_spec i h) as [->|Hne]; [|eauto].
+    rewrite Hi in Eh; inversion Eh; subst g. eexists; split; [reflexivity|]. split; [repeat split | reflexivity].
+  - destruct (sf_slot_get slots h) as [g|] eqn:Eh; cbn [fst snd st_slots]; [|rewrite Hi; eauto].
+    destruct (c_readat _ g n off) as [b e]. cbn. rewrite Hi; eauto.
+  - (* HWrite *)
+    destruct (sf_slot_get slots h) as [g|] eqn:Eh; cbn [fst snd st_slots]; [|rewrite Hi; eauto].
+    destruct (c_writeat _ g b (sf_off g)) as [[c' n] e]. cbn [fst snd st_slots].
+    rewrite (slot_get_list_set _ _ _ _ _ Eh).
+    destruct (Nat.eqb_spec i h) as [->|Hne]; [|eauto].
+    rewrite Hi in Eh; inversion Eh; subst g. eexists; split; [reflexivity|]. split; [repeat split | reflexivity].
+  - destruct (sf_slot_get slots h) as [g|] eqn:Eh; cbn [fst snd st_slots]; rewrite Hi; eauto.
+  - (* HWriteString *)
+    destruct (sf_slot_get slots h) as [g|] eqn:Eh; cbn [fst snd st_slots]; [|rewrite Hi; eauto].
+    destruct (c_writeat _ g b (sf_off g)) as [[c' n] e]. cbn [fst snd st_slots].
+    rewrite (slot_get_list_set _ _ _ _ _ Eh).
+    destruct (Nat.eqb_spec i h) as [->|Hne]; [|eauto].
+    rewrite Hi in Eh; inversion Eh; subst g. eexists; split; [reflexivity|]. split; [repeat split | reflexivity].
+  - (* HSeek *)
+    destruct (sf_slot_get slots h) as [g|] eqn:Eh; cbn [fst snd st_slots]; [|rewrite Hi; eauto].
+    destruct (sf_closed g); cbn [fst snd st_slots]; [rewrite Hi; eauto|].
+    match goal with |- context [match ?tt with SOk _ => _ | SErr _ => _ end] => destruct tt as [tg|e] end;
+      cbn [fst snd st_slots]; [|rewrite Hi; eauto].
+    destruct (tg <? 0); cbn [fst snd st_slots]; [rewrite Hi; eauto|].
+    rewrite (slot_get_list_set _ _ _ _ _ Eh).
+    destruct (Nat.eqb_spec i h) as [->|Hne]; [|eauto].
+    rewrite Hi in Eh; inversion Eh; subst g. eexists; split; [reflexivity|]. split; [repeat split | reflexivity].
+  - (* HTruncate *)
+    destruct (sf_slot_get slots h) as [g|] eqn:Eh; cbn [fst snd st_slots]; [|rewrite Hi; eauto].
+    destruct (sf_closed g); cbn [fst snd st_slots]; [rewrite Hi; eauto|].
+    destruct (srv_setstat s (sf_key g) (Some n)); cbn; rewrite Hi; eauto.
+  - (* HClose *)
+    destruct (sf_slot_get slots h) as [g|] eqn:Eh; cbn [fst snd st_slots]; [|rewrite Hi; eauto].
+    destruct (sf_closed g); cbn [fst snd st_slots]; [rewrite Hi; eauto|].
+    rewrite (slot_get_list_set _ _ _ _ _ Eh).
+    destruct (Nat.eqb_spec i h) as [->|Hne]; [|eauto].
+    rewrite Hi in Eh; inversion Eh; subst g. eexists; split; [reflexivity|]. split; [repeat split | reflexivity].
+  - destruct (sf_slot_get slots h) as [g|] eqn:Eh; cbn [fst snd st_slots]; [|rewrite Hi; eauto].
+    destruct (sf_client g); [destruct (sff_readdir s g n)|]; cbn; rewrite Hi; eauto.
+  - destruct (sf_slot_get slots h) as [g|] eqn:Eh; cbn [fst snd st_slots]; [|rewrite Hi; eauto].
+    destruct (sf_client g); [destruct (sff_readdir s g n)|]; cbn; rewrite Hi; eauto.
+  - destruct (sf_slot_get slots h) as [g|] eqn:Eh; cbn [fst snd st_slots]; [|rewrite Hi; eauto].
+    destruct (sf_closed g); [|destruct (srv_stat s (sf_key g)) as [[? ?]|]]; cbn; rewrite Hi; eauto.
+  - destruct (sf_slot_get slots h) as [g|] eqn:Eh; cbn; rewrite Hi; eauto.
+  - destruct (sf_slot_get slots h) as [g|] eqn:Eh; cbn; rewrite Hi; eauto.
+Qed.
